@@ -60,6 +60,8 @@ class AST:
         self.by_mangled = {}   # mangled name -> function node having a body
         self.redecl = {}       # id -> canonical (defining) id
         self.typedefs = []     # (node, parent)
+        self.lambda_by_type = {}   # '(lambda at file:l:c)' -> closure record id (first instantiated one)
+        self._lambdas = []
         self._index()
 
     # ------------------------------------------------------------------ index
@@ -101,6 +103,8 @@ class AST:
                     self.typemap.setdefault(qt, n['decl']['id'])
             if k in ('TypedefDecl', 'TypeAliasDecl'):
                 self.typedefs.append(n)
+            if k == 'LambdaExpr' and n.get('inner') and n['inner'][0].get('kind') == 'CXXRecordDecl':
+                self._lambdas.append(n)
             if k in FUNC_KINDS and 'mangledName' in n:
                 if any(c.get('kind') == 'CompoundStmt' for c in n.get('inner', [])) \
                         or n.get('explicitlyDefaulted'):
@@ -109,6 +113,10 @@ class AST:
             if inner:
                 for c in reversed(inner):
                     stack.append((c, n))
+        for n in self._lambdas:
+            qt = n.get('type', {}).get('qualType')
+            if qt and not self._dependent_ctx(n):
+                self.lambda_by_type.setdefault(qt, n['inner'][0]['id'])
         # functions by mangled name: only real instantiations / ordinary functions, never template patterns
         self.by_mangled = {}
         for nid, n in self.byid.items():
